@@ -20,6 +20,42 @@ CHECKS = {
         "nothing beyond the stated widths/alphabets.",
         "DESIGN.md §1.2, §2 C01",
     ),
+    "C11": (
+        "model_checking",
+        "explicit-state BFS over solver event histories (E4) on the real frontends; brute-force model-set oracle",
+        "Every history of add/satisfiable/eval/batch_eval/min/max (signed, unsigned, with extra constraints)/solution/"
+        "is_true/is_false/simplify/downsize/branch/pickle up to depth 3-4 (thorough 5-6 on sub-alphabets, solver reuse "
+        "on/off) is replayed on a fresh solver and each answer compared with the brute-force model set over x,y:BV3,c:Bool.",
+        "Reference = truth tables of the constraints (refsem). Fresh thread per history gives a fresh z3 context "
+        "(deterministic). Bounded depth and alphabet; SolverStrings covered by C03/C26 drivers.",
+        "DESIGN.md §1.3, §2 C11",
+    ),
+    "C21": (
+        "model_checking",
+        "exhaustive value-domain exploration (E3): all strided intervals of width<=3 (4 thorough), all pairs, all ops",
+        "Every transfer function on every (ordered pair of) well-formed strided interval(s) of width 1-3 (thorough: "
+        "+closure round, width 4), checked against brute-force concretisation of all member pairs.",
+        "gamma defined by us (lb + k*stride while distance <= ub-lb); known unsound cases are listed exactly "
+        "(known/C21/*.txt.gz), any other failing pair is a violation.",
+        "DESIGN.md §1.2b, §2 C21",
+    ),
+    "C22": (
+        "model_checking",
+        "exhaustive value-domain exploration (E3): joins/meets/widen over all pairs, queries on all states",
+        "union/least_upper_bound/pseudo_join/widen/intersection on every ordered pair (triples for lub) and "
+        "eval/min/max/cardinality/solution on every strided interval of width 1-3 (4 thorough) against the member sets.",
+        "Same gamma as C21; known failing cases listed exactly.",
+        "DESIGN.md §2 C22",
+    ),
+    "C23": (
+        "model_checking",
+        "exhaustive exploration of small DSIS / value-set states (E3 lifted) with a lifting oracle",
+        "All 2-subsets (and a family of 3-subsets) of an interval alphabet as DSIS, all 1-region and a family of 2-region "
+        "value sets; every lifted operation must contain the interval-level result of every member pair; joins, meets, "
+        "collapse and queries compared with member sets.",
+        "Interval-level soundness is C21/C22's business (excused here, counted in evidence).",
+        "DESIGN.md §2 C23",
+    ),
 }
 
 NOT_YET = "check not built yet in this session (planned; see DESIGN.md §2)"
